@@ -152,6 +152,8 @@ type faultReader struct {
 	kind   int
 	pos    int
 	closed int
+	// faulted: the consumer was handed the transport error at least once
+	faulted bool
 }
 
 func (r *faultReader) terminal() error {
@@ -166,6 +168,9 @@ func (r *faultReader) terminal() error {
 
 func (r *faultReader) Read(p []byte) (int, error) {
 	if r.pos >= r.cut {
+		if r.kind != 0 {
+			r.faulted = true
+		}
 		return 0, r.terminal()
 	}
 	n := copy(p, r.data[r.pos:r.cut])
